@@ -44,7 +44,7 @@ def sh(cmd, **kw):
     return subprocess.run(cmd, **kw)
 
 
-def weave(ws, vcopy, only_mods=None):
+def weave(ws, vcopy, only_mods=None, drop_mods=()):
     """Build the woven copy of /repo's *current working tree* in ws."""
     if os.path.exists(ws):
         shutil.rmtree(ws)
@@ -104,6 +104,8 @@ def weave(ws, vcopy, only_mods=None):
     # (c) harness / spec modules
     for h in registry.HOSTS:
         if only_mods is not None and not h.get("support") and h["mod"] not in only_mods:
+            continue
+        if h["mod"] in drop_mods and not h.get("support"):
             continue
         path = os.path.join(ws, h["file"])
         if not os.path.exists(path):
@@ -255,10 +257,10 @@ def classify(ob, r):
     if r["status"] == "Success" and not failed:
         if r["props"].get("total_properties", r["checks_total"]) == 0 and r["checks_total"] == 0:
             return "undecided", "vacuous: zero checks generated", []
-        if ob.get("kind") == "cover":
-            bad = [c for c in r["covers"] if c.get("status") != "Satisfied"]
-            if bad or not r["covers"]:
-                return "undecided", "vacuity guard: cover not satisfied: %s" % "; ".join(c.get("description", "?") for c in bad), bad
+        bad = [c for c in r["covers"] if c.get("status") != "Satisfied"]
+        if bad or (ob.get("kind") == "cover" and not r["covers"]):
+            # every kani::cover! in a harness is a vacuity guard (end of harness / interesting case reachable)
+            return "undecided", "vacuity guard: cover not satisfied: %s" % "; ".join(c.get("description", "?") for c in bad), bad
         return "discharged", "", []
     if real:
         return "refuted", "; ".join(sorted(set(describe(c) for c in real)))[:900], real
@@ -456,18 +458,32 @@ def main():
                 parsed = parse_export(out_json)
                 if not parsed and any(l.startswith("error") for l in open(logf).read().split("\n")):
                     with lock:
-                        # a harness module that this run does not need may have lost its anchor (e.g. a helper's signature
-                        # changed): retry once with only the harness modules of the selected obligations woven in
-                        mods = set()
-                        for o in obs:
-                            mods.update(x for x in o["harness"].split("::")[:-1])
-                        if not getattr(run_group, "minimal", False):
-                            log("[%s] woven copy did not compile; re-weaving with the minimal harness set %s" % (prop, sorted(mods)))
+                        # A harness module may have lost its anchor (e.g. a helper's signature changed). Re-weave once
+                        # without the harness modules the compiler errors point into and with only the modules the
+                        # selected obligations need; obligations of a dropped module stay undecided (lost anchor).
+                        if not getattr(run_group, "rewoven", False):
+                            text = open(logf).read()
+                            bad_files = set(re.findall(r"--> \S*?/verif/(harness/\S+?\.rs):", text))
+                            drop = set(h["mod"] for h in registry.HOSTS if h["src"] in bad_files and not h.get("support"))
+                            mods = set()
+                            for o in obs:
+                                mods.update(x for x in o["harness"].split("::")[:-1])
+                            log("[%s] woven copy did not compile; re-weaving with harness modules %s, dropping %s" % (prop, sorted(mods - drop), sorted(drop)))
                             try:
-                                weave(ws, vcopy, only_mods=mods)
-                                run_group.minimal = True
+                                weave(ws, vcopy, only_mods=mods, drop_mods=drop)
+                                run_group.rewoven = True
+                                run_group.dropped = drop
                             except Undecided:
                                 pass
+                    drop = getattr(run_group, "dropped", set())
+                    keep = [o for o in gobs if not (set(o["harness"].split("::")[:-1]) & drop)]
+                    lost = [o for o in gobs if o not in keep]
+                    with lock:
+                        for o in lost:
+                            results.append(dict(ob=o, verdict="undecided", reason="lost anchor: harness module %s no longer compiles against the changed code" % sorted(set(o["harness"].split("::")[:-1]) & drop), r=None, cmd=cmd))
+                    gobs = keep
+                    if not gobs:
+                        return
                     rc, wall, cmd = run_kani(ws, crate, [o["harness"] for o in gobs], flags + tdir, jobs, tmo, out_json, logf, mem_gb=max(16, 2 * mem))
                     parsed = parse_export(out_json)
                 if parsed:
